@@ -49,6 +49,7 @@ func Reject() []*e1.Program {
 		{"range-func", "sq := func(yield func(int) bool) {\n\tfor i := 0; i < 3; i++ {\n\t\tif !yield(i * i) {\n\t\t\treturn\n\t\t}\n\t}\n}\nfor v := range sq {\n\tYIELD(v)\n}"},
 		{"range-func-no-yield", "sq := func(yield func(int) bool) {\n\tfor i := 0; i < 3; i++ {\n\t\tif !yield(i * i) {\n\t\t\treturn\n\t\t}\n\t}\n}\nfor v := range sq {\n\ttr.V(8, v)\n}"},
 		{"range-ptr-array", "arr := [3]int{5, 6, 7}\nfor i, v := range &arr {\n\tYIELD(i*100 + v)\n}"},
+		{"range-nil-ptr-array-one-var", "var p *[3]int\nfor i := range p {\n\tYIELD(100 + i)\n}\nfor range p {\n\tYIELD(200)\n}"},
 		{"range-ptr-array-no-yield", "arr := [3]int{5, 6, 7}\nfor i, v := range &arr {\n\ttr.V(9, i*100+v)\n}"},
 		{"yield-in-if-init", "if YIELD(80); tr.B(5) {\n\tYIELD(81)\n}"},
 		{"yield-in-if-init-else", "if YIELD(80); tr.B(5) {\n\ttr.E(6)\n} else {\n\tYIELD(82)\n}"},
@@ -133,6 +134,61 @@ func §gen() ITER[int] GEN[int]{
 func §gen() ITER[int] GEN[int]{
 	YIELD(1)
 	defer YIELD(2)
+	YIELD(3)
+	RETNIL
+}GEN
+`+StdEntry)
+	// the API used as a VALUE: the call through the value is a call of the no-op stub
+	noref("yield-through-function-value", "yield-as-value", `
+func §gen() ITER[int] GEN[int]{
+	YIELD(1)
+	y := COPKG·Yield[int]
+	y(2)
+	YIELD(3)
+	RETNIL
+}GEN
+`+StdEntry)
+	noref("yieldfrom-through-function-value", "yield-as-value", `
+func §one() ITER[int] GEN[int]{
+	YIELD(7)
+	RETNIL
+}GEN
+func §gen() ITER[int] GEN[int]{
+	YIELD(1)
+	from := COPKG·YieldFrom[int]
+	from(§one())
+	YIELD(3)
+	RETNIL
+}GEN
+`+StdEntry)
+	noref("yield-passed-as-argument", "yield-as-value", `
+func §each(xs []int, f func(int)) {
+	for _, x := range xs {
+		f(x)
+	}
+}
+func §gen() ITER[int] GEN[int]{
+	YIELD(1)
+	§each([]int{2, 3}, COPKG·Yield[int])
+	YIELD(4)
+	RETNIL
+}GEN
+`+StdEntry)
+	noref("yield-in-nested-plain-closure", "yield-in-plain-closure", `
+func §gen() ITER[int] GEN[int]{
+	YIELD(1)
+	emit := func(v int) { YIELD(v) }
+	emit(2)
+	YIELD(3)
+	RETNIL
+}GEN
+`+StdEntry)
+	noref("yield-in-deferred-closure", "yield-in-plain-closure", `
+func §gen() ITER[int] GEN[int]{
+	YIELD(1)
+	func() {
+		YIELD(2)
+	}()
 	YIELD(3)
 	RETNIL
 }GEN
